@@ -121,6 +121,13 @@ func (r *RecStorage) Reset() {
 	r.FailAt = 0
 }
 
+// SeqNow returns the number of operations begun so far.
+func (r *RecStorage) SeqNow() int {
+	r.mu.Lock()
+	defer r.mu.Unlock()
+	return r.seq
+}
+
 // Mark returns the current length of the log.
 func (r *RecStorage) Mark() int {
 	r.mu.Lock()
